@@ -135,8 +135,7 @@ func init() {
 		for _, s := range parts {
 			out = e.concat(out, s)
 		}
-		if len(parts) > 1 {
-			e.path.extra["join:"+fmt.Sprint(out.Len.ID())] = parts
+		if len(parts) >= 1 {
 			e.joins = append(e.joins, joinRec{out, parts})
 		}
 		return out
@@ -455,11 +454,23 @@ func stubSplit(e *Exec, fn *ssa.Function, args []Value) Value {
 				parts = append(parts, p)
 			}
 			if sepOK {
-				// side condition: no part contains the separator — recorded as an obligation
-				for _, p := range parts {
-					e.splitObligations = append(e.splitObligations, splitOb{p, sep})
+				// side condition: no part contains the separator. For parts produced by the
+				// bech32 / decimal stubs this is their documented alphabet (contract); for
+				// every other part it is a proof obligation decided here.
+				sepS, okSep := strView(sep).concrete()
+				if !okSep || len(sepS) != 1 {
+					panic(engineErr("strings.Split: separator must be one concrete byte"))
 				}
-				e.Notes["stub strings.Split: inverse of Builder join under the side condition that no part contains the separator (discharged separately, C18.8)"] = true
+				for _, p := range parts {
+					if t, ok := strView(p).wholeAtom(); ok && (containsTerm(e.bech32Atoms, t) || containsTerm(e.digitAtoms, t)) {
+						e.Notes["stub contract: bech32 strings use [a-z0-9] and decimal strings use [0-9]; neither contains the genesis key separator"] = true
+						continue
+					}
+					k := e.fresh("splitk", smt.BV64)
+					e.check(smt.Not(smt.And(smt.ULt(k, p.Len), smt.Eq(strView(p).at(k), smt.Const(uint64(sepS[0]), 8)))),
+						"string form: no key part contains the separator (else split does not invert join)")
+				}
+				e.Notes["stub strings.Split: inverse of the strings.Builder join; the side condition (no part contains the separator) is a checked obligation"] = true
 				return e.strSlice(parts)
 			}
 		}
@@ -468,6 +479,15 @@ func stubSplit(e *Exec, fn *ssa.Function, args []Value) Value {
 }
 
 type splitOb struct{ part, sep Str }
+
+func containsTerm(l []*smt.Term, t *smt.Term) bool {
+	for _, x := range l {
+		if x == t {
+			return true
+		}
+	}
+	return false
+}
 
 func sameStr(a, b Str) bool {
 	return fmt.Sprintf("%p", a.Fn) == fmt.Sprintf("%p", b.Fn) && a.Off == b.Off && a.Len == b.Len
